@@ -115,6 +115,20 @@ def check_gate(chk, prog, eff, L, label, rule="C19.gate"):
     return len(ps)
 
 
+def _said_no(facts, r):
+    """the call result r, kept in a bool, was found false (`!added`, `added == 0`, `added != 0` false ...)"""
+    for t, truth, _ in facts:
+        x = t
+        if isinstance(t, tuple) and t[0] == "icmp" and t[1] in ("eq", "ne") and t[3] == ("c", 0):
+            x = t[2]
+            truth = truth if t[1] == "ne" else not truth
+        while isinstance(x, tuple) and x[0] == "cast":
+            x = x[3]
+        if x == r and truth is False:
+            return True
+    return False
+
+
 def check_refusal_justified(chk, rule, prog, eff):
     """creation_failed (reported as MEMERROR) is raised by a builder callback only on a path on which something that can
     fail did fail: an allocator-backed constructor returned NULL, the stack push was refused, an insertion returned false
@@ -123,7 +137,7 @@ def check_refusal_justified(chk, rule, prog, eff):
     import paths as P
     import ownership as O
     load = prog.fn("cbor_load")
-    g = prog.global_for(load, "cbor_load.callbacks")
+    g = __import__("tables").load_callbacks_global(prog)
     cf_off = prog.field_offset("_cbor_decoder_context", "creation_failed")
     builders = sorted({el.name for el in g["init_val"].elems if hasattr(el, "name")}) + ["_cbor_builder_append"]
     n = 0
@@ -137,7 +151,8 @@ def check_refusal_justified(chk, rule, prog, eff):
             n += 1
             upto = sets[0].nfacts
             failed = [e for e in pa.events[:pa.events.index(sets[0])] if e.kind == "call" and e.ckind in ("lib", "alloc") and e.res is not None and
-                      e.res != ("void",) and (pa.st.known_null(e.res, upto=upto) or {t: v for t, v, _ in pa.facts[:upto]}.get(e.res) is False)]
+                      e.res != ("void",) and (pa.st.known_null(e.res, upto=upto) or {t: v for t, v, _ in pa.facts[:upto]}.get(e.res) is False or
+                                              _said_no(pa.facts[:upto], e.res))]
             # the 64-bit length that cannot be a size_t (vacuous on LP64, present on narrower targets)
             wide = any(t[0] == "icmp" and t[1] in ("ugt", "uge") and P.is_const(t[3]) and t[3][1] >= (1 << 32) - 1 and truth for t, truth, _ in pa.facts[:upto])
             ok = bool(failed) or wide
@@ -224,7 +239,7 @@ def run(ctx, chk):
 
     # openers: from the callback table of cbor_load
     load = prog.fn("cbor_load")
-    g = prog.global_for(load, "cbor_load.callbacks")
+    g = __import__("tables").load_callbacks_global(prog)
     if g is None:
         raise AnalysisBroken("callback table of cbor_load not found")
     fields = tables.callback_fields(prog)
@@ -252,7 +267,7 @@ def run(ctx, chk):
                 continue
             if sized:
                 SZ = ("arg", 1)
-                if pa.st.hi.get(SZ, 1) == 0 or pa.st.eqc.get(SZ) == 0:
+                if pa.st.known_zero_count(SZ):
                     # zero-size container: appended, not pushed
                     app = pa.calls("_cbor_builder_append")
                     chk.ob("C19.opener", "%s path %d: empty container is appended" % (fn, k), bool(app) and app[0].args[0] == item,
